@@ -12,7 +12,7 @@ RELS = ['cone0_vs_cyl', 'cyl_to_plate', 'w_only_block', 'numeric_vs_analytic', '
 def plan(tier):
     n = 360 if tier == 'quick' else 6000
     return dict(n_cases=n, shards=16, min_nontrivial=n // 3,
-                min_tags={'rel:' + r: n // 12 for r in RELS},
+                min_tags=dict({'rel:' + r: n // 12 for r in RELS}, **{'order:numeric_first_after_redefinition': n // 40}),
                 watchdog_s=1800 if tier == 'quick' else 10000,
                 rule='relation instances over random geometries, laminates (unsymmetric/offset), edge-flag patterns (mapped consistently under '
                      'the axis exchange), load triples, series orders and positive scale factors s, e, q; six relations in rotation: cone(alpha=0) vs '
@@ -177,10 +177,34 @@ def rel_w_only_block(c, rng, tier, N):
 def rel_numeric_vs_analytic(c, rng, tier, N):
     d = gen.panel_desc(rng, model=str(rng.choice(['plate', 'cpanel'])), mmax=6, place=False, sub=False)
     c.desc['panel'] = d
-    p = gen.build_panel(d)
-    K = p.calc_k0(silent=True).toarray()
-    size = K.shape[0]
+    # who is asked first: the analytic kernel on the same object (as in the non-linear drivers), the numerical one on a fresh object,
+    # or the numerical one on an object that lived with another laminate before (stack / thicknesses / materials / offset reassigned)
+    order = str(rng.choice(['analytic_first', 'numeric_first', 'numeric_first_after_redefinition']))
+    c.tag('order:' + order)
+    c.desc['order'] = order
+    size = 3 * d['m'] * d['n']
     nx = max(d['m'], 4) + 2; ny = max(d['n'], 4) + 2
+    if order == 'analytic_first':
+        p = gen.build_panel(d)
+        K = p.calc_k0(silent=True).toarray()
+    else:
+        K = gen.build_panel(d).calc_k0(silent=True).toarray()
+        if order == 'numeric_first':
+            p = gen.build_panel(d)
+        else:
+            d0 = dict(d)
+            d0['lam'] = gen.laminate(rng, nmax=5, tscale=float(sum(d['lam']['plyts'])) / 3, offset_prob=0.5)
+            c.desc['previous_laminate'] = d0['lam']
+            p = gen.build_panel(d0)
+            p.calc_k0(silent=True)
+            if rng.random() < 0.5:
+                p.calc_k0(silent=True, c=np.zeros(size), nx=nx, ny=ny)
+            lam = d['lam']
+            p.stack = list(lam['stack'])
+            p.plyts = list(lam['plyts'])
+            p.laminaprops = [tuple(x) for x in lam['laminaprops']]
+            p.offset = lam['offset']
+            p.force_orthotropic_laminate = bool(lam.get('force_ortho'))
     Kn = p.calc_k0(silent=True, c=np.zeros(size), nx=nx, ny=ny).toarray()
     c.judge('numerically integrated k0 at the undeformed state equals the analytic k0', rel(K, Kn, floor=1e-4), 1e-9)
     Kn2 = p.calc_k0(silent=True, c=np.zeros(size), nx=nx + 5, ny=ny + 3, NLgeom=True).toarray()
